@@ -7,6 +7,7 @@ ENGINES = [
     {"name": "bppx", "path": "tool/bppx.cc", "serves_properties": [], "kind_free_text": "libTooling extractor: typed AST + clang CFG of every function under /repo/src as JSON facts"},
     {"name": "E1", "path": "bppverif/e1.py", "serves_properties": [], "kind_free_text": "CFG queries: guard facts on branch edges, dominance by guards, must-pass-through, who-writes"},
     {"name": "E3", "path": "bppverif/orderai.py", "serves_properties": [], "kind_free_text": "abstract interpretation of comparison-only functions over all order types (exact for its clause)"},
+    {"name": "E6", "path": "bppverif/e6.py", "serves_properties": ["C15"], "kind_free_text": "cache-invalidation completeness: interprocedural summaries of dependency writes and invalidations over the CFG"},
     {"name": "E5", "path": "bppverif/c02.py", "serves_properties": ["C02"], "kind_free_text": "sibling / table agreement: validation loop vs apply loop, copy vs share functions"},
 ]
 
@@ -47,6 +48,14 @@ CLAIMED["C03"] = dict(
            "re-targeted to the copy's own list before being registered/attached and shared pointers come from the copy itself; refusals precede every mutation in alias/unalias; the three bookkeeping "
            "steps happen on every normal path on the right parameters; setNamespace renames listeners before the base class; the intersected constraint is installed on both parameters."),
     note=TB + "Not decided: value equality through alias chains after arbitrary histories, cycles longer than two, listener firing order.")
+
+CLAIMED["C15"] = dict(
+    engine="E6+E1",
+    technique="static analysis: interprocedural cache-invalidation completeness (dependency writes vs reachable topologyHasChanged_() per public entry point), override/flag-source checks, call-graph reachability from rootAt",
+    level=("Static rules decide, for every history: each public entry point of the tree/DAG containers and their observers that writes a dependency of the cached validity predicate reaches the virtual "
+           "invalidator afterwards; the derived invalidator really overrides the base virtual and clears the flag; the flag only becomes true from isTree()/isDA(); re-rooting cannot erase edges, notify "
+           "deletions or allocate edge ids on the graph itself. This is the 'regardless of earlier queries' clause, which no finite test history settles."),
+    note=TB + "Not decided: father/sons/path/MRCA definitions, correctness of isTree()/isDA(), writes invalidated on some paths only (reported UNKNOWN), DAG rootedness cache.")
 
 NOT_APPLICABLE = {
     "C06": ("every clause is a floating-point identity of the JAMA QL/QR iterations (A.V = V.D within k.eps, ordering, trace/determinant); correctness lies in rotation coefficients and "
